@@ -312,5 +312,86 @@ def run(ctx):
                     ctx.diff(pcases[off], {1: "set of pruned edges", 2: "epochs_per_sample"}.get(code, "?"))
     finally:
         U.optimize_layout_euclidean = orig
-    ctx.partial.append("optimize_layout_generic and the parametric edge replication are not yet modelled")
+    # ---- (5) generic-output-metric kernel with the Euclidean metric+gradient ---------------------------------------------
+    import numba, umap.distances as Dm
+    gk = numba.njit(L._optimize_layout_generic_single_epoch, fastmath=True)
+    gterms, gcases = [], []
+    for gno in range(25 if ctx.tier == "quick" else 250):
+        g = gen_graph(rng, npr)
+        H = g["H"].copy(); T = H if g["shared"] else g["T"].copy()
+        # keep end points distinct: at d = 0 the gradient 0/(1e-6+0) and the `j == k` test are exercised by the Euclidean kernel cases
+        eps = g["eps"].copy(); epns = eps / g["rate"]; nneg = epns.copy(); nxt = eps.copy()
+        rs = np.array([[int(s_) for s_ in g["seed"]]] * H.shape[0], dtype=np.int64) + H[:, 0].astype(np.float64).view(np.int64).reshape(-1, 1)
+        n = rng.choice([0, 1, 2, 5]); alpha = g["alpha0"] if g["alpha0"] > 0 else 0.5
+        for rep in range(3):
+            pre = dict(H=H.copy(), T=T.copy(), nxt=nxt.copy(), nneg=nneg.copy(), rs=rs.copy())
+            gk(eps, nxt, g["head"], g["tail"], H, T, Dm.euclidean_grad, (), H.shape[1], alpha, g["move_other"], n, nneg, epns, rs, g["nv"], g["a"], g["b"], g["gamma"])
+            desc = dict(kernel="generic/euclidean_grad", n=n, alpha=alpha, a=g["a"], b=g["b"], gamma=g["gamma"], move_other=g["move_other"], shared=g["shared"], n_vertices=g["nv"],
+                        head=g["head"], tail=g["tail"], epochs_per_sample=eps, pre=pre, post=dict(H=H.copy(), T=T.copy()))
+            fired = [i for i in range(len(eps)) if pre["nxt"][i] <= n]
+            ctx.tag(("generic", gno, rep), ["generic_kernel"] + (["fired"] if fired else []))
+            # oracle: frame and the due-edge rule
+            if not g["shared"] and not g["move_other"] and not np.array_equal(T, pre["T"]):
+                ctx.fail("generic_epoch:reference_layout_moved", "tail embedding changed with move_other=False", desc)
+            if [i for i in range(len(eps)) if nxt[i] != pre["nxt"][i]] != [i for i in fired if eps[i] != 0]:
+                ctx.fail("generic_epoch:visits_not_the_due_edges", "visited edges are not the due ones", desc)
+            edges = "[" + "; ".join("mkEdgeF %d%%nat %d%%nat %s %s" % (int(h), int(t), fl(e), fl(en)) for h, t, e, en in zip(g["head"], g["tail"], eps, epns)) + "]"
+            gterms.append("(mkCase %s %s %s %s %s %s %s %s %s %s %s %s %s %s %s %s %s %s %s)" % (
+                fl(g["a"]), fl(g["b"]), fl(g["gamma"]), fl(alpha), fl(float(n)), zl(g["nv"]), "true" if g["move_other"] else "false",
+                "true" if g["shared"] else "false", edges, ll(pre["H"]), "[]" if g["shared"] else ll(pre["T"]), flist(pre["nxt"]), flist(pre["nneg"]), rngl(pre["rs"]),
+                ll(H), "[]" if g["shared"] else ll(T), flist(nxt), flist(nneg), rngl(rs)))
+            gcases.append(desc); n += 1
+    gdev = 0
+    for s in range(0, len(gterms), 40):
+        bl = ctx.coq_eval("cases_C07_g%d" % (s // 40), hdr + "Definition cases : list epoch_case := %s.\nEval vm_compute in map (verdict_gepoch %s %s) cases.\n"
+                          % (clist(gterms[s:s + 40]), fl(2e-3), fl(CTOL)), what="gepoch(euclidean_grad) vs jitted generic single-epoch kernel")
+        if bl is None: continue
+        v = parse_zlist(bl[0])
+        for off in range(len(v) // 2):
+            ctx.traces += 1; gdev = max(gdev, v[2 * off + 1])
+            if v[2 * off] != -1:
+                ctx.diff(gcases[s + off], {1: "Tausworthe states / number of negative draws", 2: "epoch_of_next_sample", 3: "epoch_of_next_negative_sample",
+                                           4: "head positions (dev %.3g)" % (v[2 * off + 1] / 1e9), 5: "tail positions"}.get(v[2 * off], "?"))
+    ctx.extra["max_position_deviation_generic"] = gdev / 1e9
+    # ---- (6) parametric variant: get_graph_elements (executed from its source text; TensorFlow is not needed for it) ----------
+    src = srcparams.func_source("umap/parametric_umap.py", "get_graph_elements")
+    ctx.obligations.append("source: parametric_umap.get_graph_elements can be extracted and executed")
+    if src is None:
+        ctx.broken.append("get_graph_elements not found in umap/parametric_umap.py")
+    else:
+        ns = {"np": np}
+        exec(src, ns); gge = ns["get_graph_elements"]
+        ctx.discharged.append(ctx.obligations[-1])
+        import scipy.sparse as sp
+        qterms, qcases = [], []
+        for c in range(30 if ctx.tier == "quick" else 200):
+            nv = rng.randint(4, 12)
+            M = np.triu((npr.random((nv, nv)) < 0.5) * 10 ** (-3.2 * npr.random((nv, nv))), 1).astype(np.float32)
+            if M.max() == 0: M[0, 1] = 0.7
+            M.flat[np.argmax(M)] = np.float32(1.0)
+            Gm = sp.csr_matrix(M + M.T); ne = rng.choice([5, 30, 200, 500])
+            before = Gm.copy()
+            graph, eps_, head_, tail_, weight_, nvv = gge(Gm, ne)
+            coo = before.tocoo(); w = coo.data
+            kept = set(zip(head_.tolist(), tail_.tolist()))
+            kf = [p in kept for p in zip(coo.row.tolist(), coo.col.tolist())]
+            reps = eps_.astype("int").tolist()
+            d = dict(weights=w, rows=coo.row, cols=coo.col, n_epochs=ne, kept=kf, repeats=reps)
+            ctx.tag(("param", c), ["parametric_replication"] + (["some_pruned"] if not all(kf) else []))
+            # oracle: replicated in proportion to the membership (floor(n_epochs*w)), weak edges (< w_max/n_epochs) unused, caller's graph untouched
+            kw_ = [x for x, k_ in zip(w.tolist(), kf) if k_]
+            if any(abs(r - ne * x) > 1 + 1e-3 * ne * x for r, x in zip(reps, kw_)) or len(reps) != len(kw_):
+                ctx.fail("get_graph_elements:replication_not_proportional", "repeat counts are not floor(n_epochs*w)", d)
+            if any(x < w.max() / ne * (1 - 1e-6) and k_ for x, k_ in zip(w.tolist(), kf)):
+                ctx.fail("get_graph_elements:weak_edge_used", "an edge below w_max/n_epochs is replicated", d)
+            if (before != Gm).nnz != 0 or not np.array_equal(before.data, Gm.data):
+                ctx.fail("get_graph_elements:caller_graph_modified", "the fitted graph was modified in place", d)
+            qterms.append("(%s, %s, %s, %s)" % (fl(float(ne)), flist(w.tolist()), blist(kf), zlist(reps)))
+            qcases.append(d)
+        bl = ctx.coq_eval("cases_C07_param", hdr + "Eval vm_compute in map verdict_replication %s.\n" % clist(qterms), what="replication vs get_graph_elements")
+        if bl is not None:
+            for off, code in enumerate(parse_zlist(bl[0])):
+                ctx.traces += 1
+                if code != -1: ctx.diff(qcases[off], {1: "set of pruned edges", 2: "repeat counts"}.get(code, "?"))
+    ctx.partial.append("the generic optimiser is compared with the Euclidean output metric only (other output metrics' gradients are C14's); the TensorFlow edge dataset of the parametric variant is not modelled beyond the replication count")
     return ctx.finish(RULE, assumptions=["float32 kernel arithmetic / fastmath observed with tolerance; parallel=True kernel not covered (C06 covers its selection)"])
